@@ -190,6 +190,7 @@ class Parsed:
         self.chunks = []
         self.opt = []
         self.sigs = []
+        self.soft = []  # violations of the format that do not make the content ambiguous
 
 
 def parse(data, need_body=True):
@@ -309,8 +310,11 @@ def parse(data, need_body=True):
         start += c["comp_len"]
         p.chunks.append(c)
         k += 1
+    p.entries = k
     if k != p.chunk_count:
-        raise Invalid("chunk count %d but %d index entries" % (p.chunk_count, k))
+        # the content is still determined by the entries; strict consumers
+        # (C13: reported count must equal the chunks reachable) treat it as invalid
+        p.soft.append("chunk count %d but %d index entries" % (p.chunk_count, k))
     if k < 1:
         raise Invalid("index has no dictionary entry")
     p.data_len = start
@@ -358,7 +362,12 @@ def chunk_ok(p, data, c):
     if b > len(data):
         return False
     if c["comp_len"] == 0:
-        return c["digest"] == bytes(len(c["digest"])) or c["digest"] == H(p.chunk_hash_type, b"")
+        # no stored bytes: nothing the checksum could protect.  The format asks
+        # for an all-zero checksum; anything else is a soft deviation only.
+        if not (c["digest"] == bytes(len(c["digest"])) or c["digest"] == H(p.chunk_hash_type, b"")):
+            if "zero-length chunk %d has a non-zero checksum" % c["number"] not in p.soft:
+                p.soft.append("zero-length chunk %d has a non-zero checksum" % c["number"])
+        return True
     return H(p.chunk_hash_type, bytes(data[a:b])) == c["digest"]
 
 
@@ -369,7 +378,7 @@ def decode(data):
         return Verdict(False, "header: %s" % e)
     if p.detached:
         return Verdict(False, "detached header has no body", parsed=p)
-    notes = list(p.notes)
+    notes = list(p.notes) + ["soft: " + x for x in p.soft]
     if p.total_len > len(data):
         return Verdict(False, "body truncated (%d < %d)" % (len(data), p.total_len), parsed=p)
     if p.total_len < len(data):
